@@ -428,9 +428,81 @@ fn sweep<R>(
     }
 }
 
+/// `--replay <artefact>`: re-executes exactly the recorded schedule of the recorded input (twice:
+/// the two executions must agree), without any exploration.  exit 1 = the violation reproduces.
+fn replay(path: &str) -> ! {
+    let v: Value = serde_json::from_str(&std::fs::read_to_string(path).expect("read artefact")).expect("parse artefact");
+    let key = v["key"].as_str().expect("key").to_string();
+    let f: Vec<&str> = key.split(':').collect();
+    // pivot:<ring>:<m>x<n>:<codes>:<Rows|Cols>:<cond>:<entry>:W<w>[i]
+    let (ring, shape, codes, ty, cond, entry, w) = (f[1], f[2], f[3], f[4], f[5], f[6], f[7]);
+    let (m, n) = { let mut it = shape.split('x').map(|x| x.parse::<usize>().unwrap()); (it.next().unwrap(), it.next().unwrap()) };
+    let codes: Vec<u8> = codes.bytes().map(|b| b - b'0').collect();
+    let cond = match cond { "One" => Cond::One, "AnyUnit" => Cond::AnyUnit, c => Cond::Weight(c.trim_start_matches("Weight(").trim_end_matches(')').parse().unwrap()) };
+    let entry = if entry == "public" { Entry::Public } else {
+        let nums: Vec<usize> = entry.trim_start_matches("phase").split(|c: char| !c.is_ascii_digit()).filter(|x| !x.is_empty()).map(|x| x.parse().unwrap()).collect();
+        Entry::Phase(nums.chunks(2).map(|c| (c[0], c[1])).collect())
+    };
+    let choose_items = w.ends_with('i');
+    let workers: usize = w.trim_start_matches('W').trim_end_matches('i').parse().unwrap();
+    let schedule: Vec<u32> = v["detail"]["schedule"].as_array().map(|a| a.iter().map(|x| x.as_u64().unwrap() as u32).collect()).unwrap_or_default();
+    fn go<R>(ring: &'static str, al: &[R::Ref], m: usize, n: usize, codes: &[u8], rows_type: bool, cond: Cond, entry: Entry, workers: usize, choose_items: bool, schedule: &[u32]) -> bool
+    where
+        R: Ring + Bridge + nalgebra::Scalar + nalgebra::ClosedAddAssign,
+        for<'x> &'x R: RingOps<R>,
+        R::Ref: CondRef,
+    {
+        let ar = RMat::from_fn(m, n, |i, j| al[codes[i * n + j] as usize].clone());
+        let a: SpMat<R> = to_spmat::<R>(&ar);
+        let t = if rows_type { PivotType::Rows } else { PivotType::Cols };
+        let body = || match &entry {
+            Entry::Public => find_pivots(&a, t, cond.lib()),
+            Entry::Phase(pre) => {
+                let mut pf = PivotFinder::new(&a, t, cond.lib());
+                pf.verif_run_cycle_free(pre);
+                pf.result()
+            }
+        };
+        let cfg = Config { workers, choose_items, max_decisions: 4000, min_items: 2 };
+        let mut verdicts = vec![];
+        for round in 0..2 {
+            let (r, tr) = sched::run_scheduled(&cfg, schedule, body);
+            let verdict = match (&tr.abort, r) {
+                (Some(ab), _) => format!("VIOLATION: {ab:?}"),
+                (None, Err(p)) => format!("VIOLATION: panicked after the parallel phase: {}", p.downcast_ref::<String>().cloned().unwrap_or_default()),
+                (None, Ok(pivs)) => match judge(&ar, rows_type, cond, &pivs) {
+                    Ok(()) => format!("ok: pivots {pivs:?}"),
+                    Err(e) => format!("VIOLATION: {e} (pivots {pivs:?})"),
+                },
+            };
+            println!("replay {ring} {} run {round}: choices {:?} -> {verdict}", ar.show(), tr.choices());
+            println!("   lock points: {:?}", tr.labels.iter().map(|(w, l, ln)| format!("w{w}:{l}@{ln}")).collect::<Vec<_>>());
+            verdicts.push(verdict.starts_with("VIOLATION"));
+        }
+        if verdicts[0] != verdicts[1] {
+            eprintln!("MACHINERY ERROR: the two replays of one schedule disagree");
+            std::process::exit(3);
+        }
+        verdicts[0]
+    }
+    let rows = ty == "Rows";
+    let bad = match ring {
+        "Z" => go::<i64>("Z", &[z(0), z(1), z(2)], m, n, &codes, rows, cond, entry, workers, choose_items, &schedule),
+        "Q" => go::<Ratio<i64>>("Q", &[Q::int(0), Q::int(1), Q::int(2), Q::new(z(1), z(2))], m, n, &codes, rows, cond, entry, workers, choose_items, &schedule),
+        "F3" => go::<FF<3>>("F3", &Fp::<3>::all(), m, n, &codes, rows, cond, entry, workers, choose_items, &schedule),
+        "Z[H]" => go::<Poly<'H', i64>>("Z[H]", &[UPoly::<Q>::zero(), UPoly::<Q>::one(), UPoly::new(vec![Q::int(0), Q::int(1)])], m, n, &codes, rows, cond, entry, workers, choose_items, &schedule),
+        other => panic!("unknown ring {other}"),
+    };
+    println!("REPLAY property=C11 key={key} reproduced={bad}");
+    std::process::exit(if bad { 1 } else { 0 })
+}
+
 fn main() {
     let run = Run::new("C11", "model_checking");
     sched::install_hook();
+    if let Some(p) = run.replay.clone() {
+        replay(&p);
+    }
     let th = run.thorough();
     let totals = Mutex::new(Totals {
         executions: 0,
